@@ -34,6 +34,7 @@ Record callobs := {
   k_pert : option (list Z);               (* context.perturbations *)
   k_rows : list vec;                      (* variables handed to the evaluator *)
   k_ao : amatrix; k_ac : amatrix;         (* context.active_objectives / active_constraints *)
+  k_active : option (list bool);          (* context.active: the aggregate per-realization flag *)
   k_out_o : list orow; k_out_c : option (list orow); k_out_id : list nat;    (* what the evaluator returned *)
   k_results : list resobs;                (* what ropt reported *)
   k_events : list code;                   (* what the monitor saw during/after this call *)
@@ -131,6 +132,11 @@ Definition check_call (c : case) (ch : cache) (k : callobs) : bool * cache :=
   let activity :=
     bmat_eqb (flags (k_ao k) (c_nobj c) R) (flags mao (c_nobj c) R) &&
     bmat_eqb (flags (k_ac k) (c_ncon c) R) (flags mac (c_ncon c) R) in
+  (* the aggregate flag: against the model of EvaluatorContext.__post_init__ applied to the model's matrices,
+     and against its specification (some entry of the realization is active) on the observed matrices *)
+  let aggregate :=
+    list_eqb Bool.eqb (agg_flags (k_active k) R) (agg_flags (aggregate_active R mao mac) R) &&
+    list_eqb Bool.eqb (agg_flags (k_active k) R) (agg_spec R (c_nobj c) (c_ncon c) (k_ao k) (k_ac k)) in
   let inert := list_eqb dv_eqb (k_derived_a k) (k_derived_b k) in
   let prov :=
     if k_ok k then
@@ -160,7 +166,7 @@ Definition check_call (c : case) (ch : cache) (k : callobs) : bool * cache :=
              | KBoth => None
              | KGrad => ch
              end in
-  (layout && activity && inert && prov, ch').
+  (layout && activity && aggregate && inert && prov, ch').
 
 Fixpoint check_calls (c : case) (ch : cache) (ks : list callobs) : bool :=
   match ks with
@@ -177,7 +183,9 @@ Fixpoint store_params (c : case) (ch : cache) (ks : list callobs) : list params 
       let kd := plan ch rq in
       let p := {| p_shape := match kd with KFun B => SFun B | KGrad => SGrad | KBoth => SBoth end;
                   p_con := negb (Nat.eqb (c_ncon c) 0);
-                  p_tr_obj := is_some (c_so c); p_tr_con := is_some (c_sc c) |} in
+                  p_tr_obj := is_some (c_so c); p_tr_con := is_some (c_sc c); p_tr_var := is_some (c_vt c);
+                  (* with transforms every delivery is accompanied by its user-domain copy *)
+                  p_user := is_some (c_so c) || is_some (c_sc c) || is_some (c_vt c) |} in
       p :: store_params c (snd (check_call c ch k)) t
   end.
 
